@@ -907,6 +907,25 @@ func genRead(run *vlib.Run, r *vlib.Rand, tier string) {
 			}
 			variants = append(variants, d)
 		}
+		// counts and offsets off by one: a 16-bit word decremented or incremented
+		// (a count one smaller than the array it counts is the typical "almost
+		// well-formed" table: the reader accepts it and must deliver a consistent
+		// structure)
+		for m := vlib.Count(tier, 8, 24); m > 0 && len(data) >= 14; m-- {
+			d := append([]byte(nil), data...)
+			p := 10 + 2*r.Intn((len(d)-10)/2)
+			v := int(d[p])<<8 | int(d[p+1])
+			if r.Chance(2, 3) {
+				if v == 0 {
+					continue
+				}
+				v--
+			} else {
+				v = (v + 1) & 0xFFFF
+			}
+			d[p], d[p+1] = byte(v>>8), byte(v)
+			variants = append(variants, d)
+		}
 		for vi, d := range variants {
 			info, err := readTables(tp, d)
 			if err != nil || info == nil {
